@@ -34,6 +34,11 @@ pub enum Ev {
     UserGossip,
     /// The user takes the shared-state lock and keeps it for a while (virtual ms), then releases.
     UserHoldLock(u16),
+    /// A message needing a reply arrives and the reply's send is held back by the transport; the
+    /// user must be able to take the lock while that send is pending; then the send completes.
+    GatedReply(u8),
+    /// Same with the SYN of the next gossip tick.
+    GatedTick,
     RecvFatal,
     RecvPanic,
     Shutdown,
@@ -55,14 +60,21 @@ enum RecvItem {
 struct Shared {
     send_plan: VecDeque<Option<u8>>,
     sent: Vec<(SocketAddr, &'static str, bool)>,
+    /// Destinations for which every send fails.
+    fail_addrs: std::collections::HashSet<SocketAddr>,
+    /// When set, the next send blocks (after being recorded) until the harness opens the gate.
+    gate_next_send: bool,
+    gate_entered: bool,
 }
 
 struct ScriptTransport {
+    gate: Arc<tokio::sync::Notify>,
     shared: Arc<Mutex<Shared>>,
     rx: Mutex<Option<mpsc::UnboundedReceiver<RecvItem>>>,
 }
 
 struct ScriptSocket {
+    gate: Arc<tokio::sync::Notify>,
     shared: Arc<Mutex<Shared>>,
     rx: mpsc::UnboundedReceiver<RecvItem>,
 }
@@ -71,7 +83,7 @@ struct ScriptSocket {
 impl Transport for ScriptTransport {
     async fn open(&self, _listen_addr: SocketAddr) -> anyhow::Result<Box<dyn Socket>> {
         let rx = self.rx.lock().unwrap().take().ok_or_else(|| anyhow::anyhow!("already open"))?;
-        Ok(Box::new(ScriptSocket { shared: self.shared.clone(), rx }))
+        Ok(Box::new(ScriptSocket { gate: self.gate.clone(), shared: self.shared.clone(), rx }))
     }
 }
 
@@ -89,9 +101,23 @@ impl Socket for ScriptSocket {
     async fn send(&mut self, to: SocketAddr, msg: ChitchatMessage) -> anyhow::Result<()> {
         // A real socket yields to the scheduler.
         tokio::task::yield_now().await;
-        let mut sh = self.shared.lock().unwrap();
-        let outcome = sh.send_plan.pop_front().flatten();
-        sh.sent.push((to, kind_of(&msg), outcome.is_none()));
+        let (outcome, gated) = {
+            let mut sh = self.shared.lock().unwrap();
+            let mut outcome = sh.send_plan.pop_front().flatten();
+            if sh.fail_addrs.contains(&to) {
+                outcome = Some(1);
+            }
+            sh.sent.push((to, kind_of(&msg), outcome.is_none()));
+            let gated = std::mem::replace(&mut sh.gate_next_send, false);
+            if gated {
+                sh.gate_entered = true;
+            }
+            (outcome, gated)
+        };
+        if gated {
+            // Back-pressure: the datagram leaves only when the harness opens the gate.
+            self.gate.notified().await;
+        }
         match outcome {
             None => Ok(()),
             Some(0) => Err(anyhow::anyhow!("failed to send chitchat message to peer: Message too long (os error 90)")),
@@ -141,7 +167,8 @@ pub fn exec_srv(case: &SrvCase, tally: &mut Tally) -> Result<(), Failure> {
         let interval = Duration::from_millis(case.gossip_interval_ms.max(10) as u64);
         let shared = Arc::new(Mutex::new(Shared::default()));
         let (tx, rx) = mpsc::unbounded_channel();
-        let transport = ScriptTransport { shared: shared.clone(), rx: Mutex::new(Some(rx)) };
+        let gate = Arc::new(tokio::sync::Notify::new());
+        let transport = ScriptTransport { gate: gate.clone(), shared: shared.clone(), rx: Mutex::new(Some(rx)) };
         let id = simple_id("server", 0, 9000);
         let seed = peer_addr(0);
         let config = ChitchatConfig {
@@ -211,6 +238,36 @@ pub fn exec_srv(case: &SrvCase, tally: &mut Tally) -> Result<(), Failure> {
                         if r.is_err() {
                             return vio("C19/user-lock-deadlock", format!("event {step}: taking the shared lock did not succeed within {STALL:?} of virtual time"));
                         }
+                    }
+                }
+                Ev::GatedReply(_) | Ev::GatedTick => {
+                    if fatal.is_none() && !shut {
+                        {
+                            let mut sh = shared.lock().unwrap();
+                            sh.gate_next_send = true;
+                            sh.gate_entered = false;
+                        }
+                        if let Ev::GatedReply(kind) = ev {
+                            let _ = tx.send(RecvItem::Msg(peer_addr(1), message(*kind % 3 % 2, n)));
+                            tokio::time::sleep(Duration::from_millis(1)).await;
+                        } else {
+                            tokio::time::sleep(interval + Duration::from_millis(1)).await;
+                        }
+                        let entered = shared.lock().unwrap().gate_entered;
+                        if entered {
+                            let r = tokio::time::timeout(STALL, h.with_chitchat(|c| {
+                                c.self_node_state().set("during-send", format!("{step}"));
+                            }))
+                            .await;
+                            gate.notify_one();
+                            if r.is_err() {
+                                return vio("C19/lock-held-across-send", format!("event {step}: while a send was pending in the transport, with_chitchat did not get the lock within {STALL:?} of virtual time (the loop holds the state lock across the send)"));
+                            }
+                            tally.label("user_lock_during_pending_send");
+                        } else {
+                            shared.lock().unwrap().gate_next_send = false;
+                        }
+                        tokio::time::sleep(Duration::from_millis(1)).await;
                     }
                 }
                 Ev::UserGossip => {
@@ -384,6 +441,8 @@ fn ev_strategy() -> impl Strategy<Value = Ev> {
         2 => Just(Ev::UserLock),
         1 => Just(Ev::UserGossip),
         2 => prop_oneof![Just(1u16), 50u16..5000].prop_map(Ev::UserHoldLock),
+        2 => (0u8..3).prop_map(Ev::GatedReply),
+        1 => Just(Ev::GatedTick),
         1 => Just(Ev::RecvFatal),
         1 => Just(Ev::RecvPanic),
         1 => Just(Ev::Shutdown),
@@ -451,6 +510,14 @@ pub fn udp_smoke(ctx: &Ctx) -> SubResult {
             let _ = tokio::time::timeout(Duration::from_secs(10), handle.shutdown()).await;
             return Ok((garbage, u64::MAX));
         }
+        // A failed send (an IPv6 destination from an IPv4 socket, and an unreachable-looking
+        // address) must not poison later sends.
+        for bad in ["[::1]:9", "[2001:db8::1]:7000"] {
+            if let Ok(addr) = bad.parse::<SocketAddr>() {
+                let _ = handle.gossip(addr);
+            }
+        }
+        tokio::time::sleep(Duration::from_millis(200)).await;
         // The server must still answer.
         let mut answered = 0u64;
         let mut buf = vec![0u8; 65_536];
@@ -475,6 +542,32 @@ pub fn udp_smoke(ctx: &Ctx) -> SubResult {
                     }
                     _ => break,
                 }
+            }
+        }
+        // A SYN of another cluster must be answered with exactly one BadCluster datagram, also
+        // right after a failed send.
+        if let Ok(addr) = "[::1]:9".parse::<SocketAddr>() {
+            let _ = handle.gossip(addr);
+        }
+        tokio::time::sleep(Duration::from_millis(100)).await;
+        let (foreign, _) = encode_msg(&WMsg::Syn { cluster_id: "another-cluster".into(), digest: vec![] }, Blocking::Canonical);
+        let _ = probe.send_to(&foreign, server_addr).await;
+        let deadline = tokio::time::Instant::now() + Duration::from_secs(3);
+        loop {
+            match tokio::time::timeout_at(deadline, probe.recv_from(&mut buf)).await {
+                Ok(Ok((len, _))) => match decode_msg(&buf[..len]) {
+                    Ok(d) if d.consumed == len => {
+                        if matches!(d.msg, WMsg::BadCluster) {
+                            break;
+                        }
+                        if matches!(d.msg, WMsg::SynAck { .. } | WMsg::Ack { .. }) && false {
+                            break;
+                        }
+                    }
+                    Ok(d) => return Ok((garbage, u64::MAX - 1 - (len - d.consumed) as u64)),
+                    Err(_) => return Ok((garbage, u64::MAX - 1)),
+                },
+                _ => break,
             }
         }
         let finished = tokio::time::timeout(Duration::from_secs(10), handle.shutdown()).await;
@@ -538,6 +631,9 @@ pub struct TargetsCase {
     /// (usual in deployments where every node gets the same seed list), bit 2 = a peer is a seed.
     pub seeds: u8,
     pub rounds: u8,
+    /// Bitmask of peers whose address refuses every send (per-destination error).
+    #[serde(default)]
+    pub failing_peers: u16,
 }
 
 pub fn exec_targets(case: &TargetsCase, tally: &mut Tally) -> Result<(), Failure> {
@@ -546,7 +642,8 @@ pub fn exec_targets(case: &TargetsCase, tally: &mut Tally) -> Result<(), Failure
         let interval = Duration::from_millis(1000);
         let shared = Arc::new(Mutex::new(Shared::default()));
         let (tx, rx) = mpsc::unbounded_channel();
-        let transport = ScriptTransport { shared: shared.clone(), rx: Mutex::new(Some(rx)) };
+        let gate = Arc::new(tokio::sync::Notify::new());
+        let transport = ScriptTransport { gate: gate.clone(), shared: shared.clone(), rx: Mutex::new(Some(rx)) };
         let id = simple_id("server", 0, 9000);
         let own_addr = id.gossip_advertise_addr;
         let n_peers = (case.peers % 13) as usize;
@@ -568,7 +665,8 @@ pub fn exec_targets(case: &TargetsCase, tally: &mut Tally) -> Result<(), Failure
             gossip_interval: interval,
             listen_addr: own_addr,
             seed_nodes: seeds.clone(),
-            failure_detector_config: FailureDetectorConfig::default(),
+            // 20 s: dead peers are scheduled for deletion after 10 rounds and removed after 20
+            failure_detector_config: FailureDetectorConfig { dead_node_grace_period: Duration::from_secs(20), ..FailureDetectorConfig::default() },
             marked_for_deletion_grace_period: Duration::from_secs(3600),
             catchup_callback: None,
             extra_liveness_predicate: None,
@@ -577,9 +675,17 @@ pub fn exec_targets(case: &TargetsCase, tally: &mut Tally) -> Result<(), Failure
             Ok(h) => h,
             Err(e) => return vio("C17/spawn-failed", format!("{e:#}")),
         };
+        {
+            let mut sh = shared.lock().unwrap();
+            for (i, p) in peer_ids.iter().enumerate() {
+                if (case.failing_peers >> i) & 1 == 1 {
+                    sh.fail_addrs.insert(p.to_real().gossip_advertise_addr);
+                }
+            }
+        }
         let known: std::collections::HashSet<SocketAddr> = peer_ids.iter().map(|p| p.to_real().gossip_advertise_addr).chain(seeds.iter().filter_map(|s| s.parse().ok())).collect();
         let n_live = (case.live as usize).min(n_peers);
-        for round in 0..(case.rounds % 8 + 3) as u64 {
+        for round in 0..(case.rounds % 14 + 3) as u64 {
             // digest from peer 0: all peers, the first n_live with increasing heartbeats
             if n_peers > 0 {
                 let digest: Vec<WNodeDigest> = peer_ids.iter().enumerate().map(|(i, p)| WNodeDigest { id: p.clone(), heartbeat: if i < n_live { 10 + round } else { 10 }, last_gc: 0, max_version: 0 }).collect();
@@ -606,6 +712,15 @@ pub fn exec_targets(case: &TargetsCase, tally: &mut Tally) -> Result<(), Failure
             if round >= 1 && n_live == 0 && case.seeds & 1 != 0 && !syns.contains(&foreign_seed) && !(case.seeds & 4 != 0 && syns.iter().any(|a| a.port() == 9200)) {
                 return vio("C17/server-isolated-no-seed", format!("round {round}: no live peer and a seed exists, yet the round's SYNs {syns:?} reach no seed"));
             }
+            // Dead peers outnumbering live ones must be probed, also once they are scheduled for
+            // deletion (they stay in the dead set until the full grace period has passed).
+            let dead_addrs: Vec<SocketAddr> = peer_ids[n_live..].iter().map(|p| p.to_real().gossip_advertise_addr).collect();
+            if n_live >= 1 && dead_addrs.len() > n_live && (5..18).contains(&round) && !syns.iter().any(|a| dead_addrs.contains(a)) {
+                return vio("C17/server-no-dead-probe", format!("round {round}: {} dead peers outnumber {n_live} live ones but the round's SYNs {syns:?} reach no dead peer", dead_addrs.len()));
+            }
+            if round >= 11 && n_live >= 1 && dead_addrs.len() > n_live {
+                tally.label("dead_peers_scheduled_for_deletion_still_probed");
+            }
             tally.sum("rounds_observed", 1);
         }
         let _ = tokio::time::timeout(STALL, handle.shutdown()).await;
@@ -623,7 +738,7 @@ pub fn exec_targets(case: &TargetsCase, tally: &mut Tally) -> Result<(), Failure
 }
 
 pub fn targets_strategy() -> impl Strategy<Value = TargetsCase> {
-    (0u8..13, 0u8..13, 0u8..8, 0u8..8).prop_map(|(peers, live, seeds, rounds)| TargetsCase { peers, live, seeds, rounds })
+    (0u8..13, 0u8..13, 0u8..8, 0u8..16, prop_oneof![2 => Just(0u16), 1 => any::<u16>()]).prop_map(|(peers, live, seeds, rounds, failing_peers)| TargetsCase { peers, live, seeds, rounds, failing_peers })
 }
 
 pub fn run_targets(ctx: &Ctx, report: &mut Report) {
